@@ -24,6 +24,7 @@ import (
 	"flag"
 	"fmt"
 	"go/ast"
+	"go/constant"
 	"go/printer"
 	"go/token"
 	"go/types"
@@ -81,6 +82,7 @@ type Out struct {
 	Edges    map[string][]string `json:"edges"`
 	NetTypes []string            `json:"net_types"`
 	Problems []string            `json:"problems"`
+	MaxDepth int64               `json:"max_depth"` // protocol/codec.go: msgp.DefaultUnmarshalState.AllowableDepth = maxMsgpDecodeDepth
 }
 
 var fset = token.NewFileSet()
@@ -465,11 +467,22 @@ func (s *scanner) simple(st ast.Stmt, env map[string]*hdr, rest []ast.Stmt) {
 			s.makeCall(st, c, env)
 		}
 		if se, ok := c.Fun.(*ast.SelectorExpr); ok && (se.Sel.Name == "UnmarshalMsgWithState" || se.Sel.Name == "UnmarshalMsg") {
+			callee := ""
 			if t := s.pkg.TypesInfo.TypeOf(se.X); t != nil {
 				if k := typeKey(t); k != "" {
 					s.calls[k] = true
+					callee = k
 				}
 			}
+			// depth accounting: a nested decoder must be entered with THIS function's state (`st`, already decremented);
+			// `.UnmarshalMsg(bts)` restarts from msgp.DefaultUnmarshalState, i.e. resets the remaining depth
+			site := Site{Pkg: s.dir, Type: s.typ, Line: s.line(c), Kind: "call", Target: exprStr(se.X), Bound: callee, Check: "resets", Path: s.curPath()}
+			if se.Sel.Name == "UnmarshalMsgWithState" && len(c.Args) == 2 {
+				if a1, ok := c.Args[1].(*ast.Ident); ok && a1.Name == "st" {
+					site.Check = "passes"
+				}
+			}
+			*s.sites = append(*s.sites, site)
 		}
 		return true
 	})
@@ -910,7 +923,7 @@ func main() {
 			sc.block(fd.Body.List, map[string]*hdr{})
 			sc.finish()
 			for i := first; i < len(out.Sites); i++ {
-				if b := out.Sites[i].Bound; b != "" && out.Sites[i].Kind != "array" && out.Sites[i].Kind != "tuple" {
+				if b := out.Sites[i].Bound; b != "" && out.Sites[i].Kind != "array" && out.Sites[i].Kind != "tuple" && out.Sites[i].Kind != "call" {
 					exprs[b] = true
 				}
 			}
@@ -998,6 +1011,32 @@ func main() {
 		sort.Strings(info.Types)
 		sort.Strings(info.Handwritten)
 		out.Packages = append(out.Packages, info)
+	}
+
+	// the depth limit: protocol/codec.go init() sets msgp.DefaultUnmarshalState.AllowableDepth to a constant
+	out.MaxDepth = -1
+	for _, p := range loaded {
+		if relDir(p.PkgPath) != "protocol" {
+			continue
+		}
+		for _, f := range p.Syntax {
+			ast.Inspect(f, func(n ast.Node) bool {
+				as, ok := n.(*ast.AssignStmt)
+				if !ok || len(as.Lhs) != 1 || len(as.Rhs) != 1 || exprStr(as.Lhs[0]) != "msgp.DefaultUnmarshalState.AllowableDepth" {
+					return true
+				}
+				if tv, ok := p.TypesInfo.Types[as.Rhs[0]]; ok && tv.Value != nil {
+					if v, exact := constant.Int64Val(tv.Value); exact {
+						out.MaxDepth = v
+					}
+				}
+				return true
+			})
+		}
+	}
+	if out.MaxDepth < 0 {
+		out.Problems = append(out.Problems, "protocol/codec.go no longer sets msgp.DefaultUnmarshalState.AllowableDepth to a constant (depth limit of the decoders not found)")
+		out.MaxDepth = 0
 	}
 
 	// 2. entry points
@@ -1140,6 +1179,7 @@ func leanFiles(o *Out) (string, string) {
 	}
 	fmt.Fprintf(&b, "def numSites : Nat := %d\n", len(o.Sites))
 	fmt.Fprintf(&b, "def numProblems : Nat := %d\n", len(o.Problems))
+	fmt.Fprintf(&b, "/-- protocol/codec.go: `msgp.DefaultUnmarshalState.AllowableDepth = maxMsgpDecodeDepth` -/\ndef maxDepth : Nat := %d\n", o.MaxDepth)
 	b.WriteString("\nend AlgoVerif.Gen.MsgpSites\n")
 	t.WriteString("\nend AlgoVerif.Gen.MsgpSites\n")
 	return b.String(), t.String()
@@ -1147,7 +1187,7 @@ func leanFiles(o *Out) (string, string) {
 
 func kindCtor(k string) string {
 	switch k {
-	case "slice", "map", "bytes", "str", "array", "tuple", "exact", "structmap", "structarr", "depth":
+	case "slice", "map", "bytes", "str", "array", "tuple", "exact", "structmap", "structarr", "depth", "call":
 		return k
 	}
 	return "unknown"
@@ -1155,7 +1195,7 @@ func kindCtor(k string) string {
 
 func checkCtor(c string) string {
 	switch c {
-	case "bound", "intrinsic", "fixed", "loop", "guard", "exempt", "missing", "after", "stale", "undominated":
+	case "bound", "intrinsic", "fixed", "loop", "guard", "exempt", "missing", "after", "stale", "undominated", "passes", "resets":
 		return c
 	}
 	return "undominated"
